@@ -93,7 +93,7 @@ var maxVals = []int{0, 1, 2, 3, 500}
 // {representative w, weight}: Tick 0, NewChange 6, NewTask 12, AddTask 20, WaitFor 28, NewLane 33, JoinLane 36,
 // SetStatus 40, SetToWait 58, ChangeSetStatus 62, TaskSet/Clear 66, ChangeSet 72, StateSet 76, Log 79, At 83,
 // SetProgress 85, SetClean 87, AddNotice 89, warnings 92, Register 95, Prune 96, SaveReload 98
-var mixAll = [][2]int{{0, 6}, {6, 5}, {12, 9}, {20, 10}, {28, 6}, {33, 2}, {36, 3}, {40, 18}, {58, 4}, {62, 3}, {66, 5}, {72, 4},
+var mixAll = [][2]int{{0, 6}, {6, 5}, {12, 9}, {20, 12}, {28, 8}, {33, 2}, {36, 3}, {40, 18}, {58, 4}, {62, 3}, {66, 5}, {72, 4},
 	{76, 2}, {79, 4}, {83, 2}, {85, 2}, {87, 2}, {89, 4}, {92, 3}, {95, 1}, {96, 4}, {98, 5}}
 var mixPrune = [][2]int{{0, 12}, {6, 10}, {12, 10}, {20, 14}, {28, 3}, {33, 1}, {36, 2}, {40, 25}, {58, 3}, {72, 5}, {89, 2},
 	{92, 2}, {95, 3}, {96, 12}, {98, 2}}
@@ -271,10 +271,12 @@ func (g *gen) next() (Op, bool) {
 			return Op{"AddTask", M{"c": g.pick(cids), "t": id}}, true
 		}
 	case w < 33 && len(tids) > 1:
-		a, ta := anyTask()
-		b, tb := anyTask()
-		if b < a && chgID(ta) == chgID(tb) && !(ta.Status() == state.DoStatus && tb.Status() == state.UndoStatus) {
-			return Op{"WaitFor", M{"a": a, "b": b}}, true
+		for try := 0; try < 12; try++ {
+			a, ta := anyTask()
+			b, tb := anyTask()
+			if b < a && chgID(ta) == chgID(tb) && !(ta.Status() == state.DoStatus && tb.Status() == state.UndoStatus) {
+				return Op{"WaitFor", M{"a": a, "b": b}}, true
+			}
 		}
 	case w < 36:
 		return Op{"NewLane", M{}}, true
